@@ -322,8 +322,8 @@ def constify(rng, items, p=0.25):
     defs = []
     n = 0
     for it in out:
-        if it['k'] not in ('inst', 'pseudo', 'data', 'pack'):
-            continue
+        if it['k'] not in ('inst', 'pseudo', 'data', 'pack') or it.get('m') == 'fence':
+            continue        # fence sets are not among the documented substitution positions (plain int() parsing)
         if it['k'] in ('data', 'pack'):
             if 'i' in it['val'] and rng.random() < p:
                 name = 'K%d' % n
